@@ -60,6 +60,10 @@ def out_file(draw, i):
         name = draw(st.sampled_from(['out%d.txt' % i, 'result%d.csv' % i,
                                      'report %d.txt' % i, 'Data%d.json' % i,
                                      'STDOUT' if i == 0 else 'x%d.md' % i,
+                                     # names of the tests every generated
+                                     # script has anyway
+                                     ['stdout', 'stderr', 'exit.code',
+                                      'no exception'][i % 4],
                                      # names that differ only in characters
                                      # a Python identifier cannot hold
                                      draw(st.sampled_from(
